@@ -2,6 +2,7 @@
 # usage: trymut.sh <patch> <Cxx> [tier]  — apply a seeded change to /repo, run the check, undo.
 set -u
 P=$1; C=$2; T=${3:-quick}
+[ -f "$P" ] || P=/verif/seeded/$1/patch.diff
 cd /repo || exit 9
 git diff --quiet || { echo "repo dirty"; exit 9; }
 git apply "$P" || { echo "patch does not apply"; exit 9; }
